@@ -72,6 +72,18 @@ def replay(f, w):
         if len(st) >= 2:
             delta = (int(st[1][0]) + int(st[1][1])) - (int(st[0][0]) + int(st[0][1]))
             if delta != w.get('nlookups'): return True, f"natively hits+misses grew by {delta} during {w.get('nlookups')} lookups " + info, lines
+            if 'counted as a hit' in f.get('clause', ''):
+                # without invalidate_on / cache_if a call found its entry iff it did not run the body
+                ip = [i for i, l in enumerate(lines) if l.startswith('conc_progress')]
+                before = [int(l.split()[1]) for l in lines[:ip[0]] if l.startswith('execs ') and len(l.split()) == 2] if ip else []
+                after = [int(l.split()[1]) for l in lines[ip[0]:] if l.startswith('execs ') and len(l.split()) == 2] if ip else []
+                rec = wrap.subjects()[w['subject']]['intended']
+                if before and after and not rec['invalidate_on']:
+                    ran = after[0] - before[-1]; dh = int(st[1][0]) - int(st[0][0]); dm = int(st[1][1]) - int(st[0][1])
+                    if dm != ran or dh != w.get('nlookups') - ran:
+                        return True, f"natively {w.get('nlookups')} lookups, {ran} of them ran the body (found nothing), but the counters grew by hits={dh} misses={dm} " + info, lines
+                    return False, f"natively hits={dh} misses={dm} match {ran} executions out of {w.get('nlookups')} lookups " + info, lines
+                return False, 'executions not observable ' + info, lines
             return False, f"natively hits+misses grew by {delta} = number of lookups " + info, lines
         return False, 'statistics not observable ' + info, lines
     keyl = [l.split()[2:] for l in lines if l.startswith('keys ')]
